@@ -5,6 +5,7 @@ import (
 	"encoding/json"
 	"errors"
 	"fmt"
+	"math"
 	"os"
 	"strings"
 	"time"
@@ -47,6 +48,10 @@ func openHist(filename string) (list []Item, err error) {
 	}
 
 	scanner := bufio.NewScanner(file)
+	// Entries can be arbitrarily long: lift the default 64KiB token limit,
+	// past which the scanner stops and all following entries are lost.
+	scanner.Buffer(make([]byte, 0, bufio.MaxScanTokenSize), math.MaxInt)
+
 	for scanner.Scan() {
 		var item Item
 
